@@ -1,5 +1,5 @@
 (* C08 - custom VCF variants are imported faithfully, whatever their VCF representation. *)
-From VV Require Import Model.Base Model.Pattern Model.Seq Model.Vcf Model.Targeton Model.Import Proofs.VcfProofs Proofs.ImportProofs.
+From VV Require Import Model.Base Model.Pattern Model.Seq Model.Vcf Model.Targeton Model.Import Proofs.VcfProofs Proofs.ImportProofs Generated.KernelsTargeton Proofs.KernelTargetonEquiv.
 
 (* however the record is anchored or padded (SNV, MNV, anchored insertion/deletion, anchored or unanchored
    deletion-insertion, non-minimal padding), the oligonucleotide built from the imported variant is the template
@@ -35,6 +35,13 @@ Example C08_examples :
   = ["GGGGGATTCGTGG"; "GGGGGAGTGG"; "GGGGGATTGTGG"; "GGGGGATGG"; "GGGGGGTTGTGG"]%string.
 Proof. vm_compute. reflexivity. Qed.
 
+(* the constant regions that flag is computed from, and the three target regions, translated from loaders/targeton_config.py on every
+   run, are the model's (an edit of a boundary test there breaks this statement by name) *)
+Theorem C08_regions_match_source : forall c,
+  k_targeton_const_1 c = get_const_1 c /\ k_targeton_const_2 c = get_const_2 c /\
+  k_targeton_region_1 c = get_region_1 c /\ k_targeton_region_3 c = get_region_3 c.
+Proof. intros c. exact (conj (k_targeton_const_1_eq c) (conj (k_targeton_const_2_eq c) (conj (k_targeton_region_1_eq c) (k_targeton_region_3_eq c)))). Qed.
+
 (* which records appear: exactly the polymorphic records on the targeton's contig whose reported span (for insertions and
    deletions: without the anchor base) lies inside the targeton, each in its documented reported form *)
 Theorem C08_import_exact : forall contig r recs out,
@@ -69,3 +76,4 @@ Print Assumptions C08_in_const_iff.
 Print Assumptions C08_import_exact.
 Print Assumptions C08_import_once_per_record.
 Print Assumptions C08_import_example.
+Print Assumptions C08_regions_match_source.
